@@ -639,7 +639,7 @@ func (a *progAnalysis) dependsOnTokens(v ssa.Value, seen map[ssa.Value]bool, dep
 var ruleProgress = &Rule{
 	ID: "R-PROGRESS",
 	Doc: "lexing and parsing terminate: the position only moves forward (writers of the position field), every token-driven loop makes progress on every " +
-		"path around it, no recursion is reachable without progress, and parser loops leave at EOF",
+		"path around it (explored from the function entry and from the loop's own header, so that loops behind a call that always advances are examined too), no recursion is reachable without progress, and parser loops leave at EOF",
 	Floor: 12,
 	Run:   runProgress,
 }
